@@ -255,8 +255,9 @@ pub struct CapProp(pub Which);
 
 fn judge_c02(o: &CapOut) -> Result<(), Fail> {
     walk_ops(&o.ops, &o.old_ids, &o.new_ids, o.or.clone(), o.nr.clone())?;
-    let a = &o.old_ids[o.or.clone()];
-    let b = &o.new_ids[o.nr.clone()];
+    // (start > end is an empty range)
+    let a = &o.old_ids[o.or.start..o.or.end.max(o.or.start)];
+    let b = &o.new_ids[o.nr.start..o.nr.end.max(o.nr.start)];
     let same = a == b;
     if same {
         if let Some(op) = o.ops.iter().find(|op| !op.is_equal()) {
@@ -383,6 +384,9 @@ impl CapProp {
         }
         if case.seq.old.len() > 4000 {
             out.count("fragmented_cases", 1);
+        }
+        if case.seq.old.len() > 4000 && case.seq.old.len() < 70_000 && case.entry != CapEntry::Script {
+            out.count("cases_above_4000_items", 1);
         }
         // fault-free configuration, judged separately
         if case.only_k.is_none() {
@@ -525,7 +529,8 @@ impl Prop for CapProp {
                 _ => Size::Huge(700),
             },
         };
-        let seq = gen_seq_case(rng, size, None);
+        let mut seq = gen_seq_case(rng, size, None);
+        crate::gen::maybe_reverse_empty(rng, &mut seq);
         let mut weights = vec![30u64, 10, 8, 8, 8, 4, 4, 0];
         if self.0 == Which::C09 {
             weights[7] = 25;
@@ -568,6 +573,38 @@ impl Prop for CapProp {
         } else {
             entry
         };
+        // very rarely: inputs just above typical internal limits
+        let giant = if entry != CapEntry::Script && !fragmented {
+            match rng.below(if tier == Tier::Quick { 36_000 } else { 60_000 }) {
+                0..=2 => 1,
+                3..=5 => 2,
+                6..=8 => 3,
+                _ => 0,
+            }
+        } else {
+            0
+        };
+        let mut entry = entry;
+        if giant != 0 {
+            let (o, n) = match giant {
+                1 => crate::gen::gen_many_distinct(rng),
+                2 => crate::gen::gen_many_cells(rng),
+                _ => crate::gen::gen_big_slide(rng),
+            };
+            seq.old_range = (0, o.len());
+            seq.new_range = (0, n.len());
+            seq.old = o;
+            seq.new = n;
+            seq.index = crate::gen::IndexKind::Slice;
+            seq.hasher.0 = 0;
+            seq.alg = match giant {
+                1 => *rng.pick(&[crate::gen::Alg::Myers, crate::gen::Alg::Patience]),
+                2 => crate::gen::Alg::Lcs,
+                _ => *rng.pick(&crate::gen::ALGS),
+            };
+            // the 16-bit id question only exists behind the text builder
+            entry = if giant == 1 { CapEntry::TextLines } else { CapEntry::Slices };
+        }
         if entry == CapEntry::Script && seq.n() + seq.m() > 80 {
             // scripts exercise Compact, small inputs with repeats do that best
             seq = gen_seq_case(rng, Size::Small, None);
@@ -587,6 +624,7 @@ impl Prop for CapProp {
             },
             only_k: None,
             cap: match (tier, size) {
+                _ if giant != 0 => 3,
                 _ if fragmented => 4,
                 (Tier::Quick, Size::Small) | (Tier::Quick, Size::Medium) => 256,
                 (Tier::Quick, _) => 16,
